@@ -72,3 +72,15 @@ VARIANTS += [
          old="    for trial_id in storage._get_stale_trial_ids(study._study_id):\n        try:\n            if storage.set_trial_state_values(trial_id, state=TrialState.FAIL):\n                failed_trial_ids.append(trial_id)\n        except optuna.exceptions.UpdateFinishedTrialError:\n",
          new="    try:\n        for trial_id in storage._get_stale_trial_ids(study._study_id):\n            if storage.set_trial_state_values(trial_id, state=TrialState.FAIL):\n                failed_trial_ids.append(trial_id)\n    except optuna.exceptions.UpdateFinishedTrialError:\n        if True:\n"),
 ]
+
+VARIANTS += [
+    dict(id="c19-heartbeat-from-worker-clock", prop="C19", file=RDB, expect="R19.6",
+         old="                heartbeat.heartbeat = session.execute(sqlalchemy.func.now()).scalar()\n",
+         new="                heartbeat.heartbeat = datetime.now()\n"),
+    dict(id="c19-stale-now-from-worker-clock", prop="C19", file=RDB, expect="R19.6",
+         old="            current_heartbeat = session.execute(sqlalchemy.func.now()).scalar()\n            assert current_heartbeat is not None\n",
+         new="            current_heartbeat = datetime.utcnow()\n            assert current_heartbeat is not None\n"),
+    dict(id="c19-first-beat-explicit-local-time", prop="C19", file=RDB, expect="R19.6",
+         old="                heartbeat = models.TrialHeartbeatModel(trial_id=trial_id)\n",
+         new="                heartbeat = models.TrialHeartbeatModel(trial_id=trial_id, heartbeat=datetime.now())\n"),
+]
